@@ -57,6 +57,13 @@ pub fn run(args: &Args, r: &mut Report) {
             case.crash_at = Some(rng.below(200));
             case.shape.push("crash".into());
         }
+        if rng.chance(1, 6) {
+            // a store that rejects every write of an unrelated (non-app) entry
+            // (the counter / last-contact entries are what the together-with-the-result rule reads, so not those)
+            let k = "server_dictated_poll_interval";
+            case.shape.push(format!("failkey:{}", k));
+            case.fault.fail_keys.push(k.to_string());
+        }
         case.script.checks.push(gen_check(&mut rng, &apps, Path::NoUpdate, cfg.cup, true, false).0);
         case.script.decisions.push(Decision::Ok(ParamsSnap::default_lib()));
         let run = run_case_restart(&case, &[next], &mut rng, 1);
